@@ -62,7 +62,7 @@ func H_C04_libcheck() {
 	}
 	// half-way cases of the product and quotient rounding
 	half := math.LegacyMustNewDecFromStr("0.000000000500000000")
-	obs(half.Mul(math.LegacyMustNewDecFromStr("0.000000001"))) // 0.5e-18 -> banker's: 0
+	obs(half.Mul(math.LegacyMustNewDecFromStr("0.000000001")))                                         // 0.5e-18 -> banker's: 0
 	obs(math.LegacyMustNewDecFromStr("0.0000000015").Mul(math.LegacyMustNewDecFromStr("0.000000001"))) // 1.5e-18 -> 2e-18
 	obs(math.LegacyNewDec(1).Quo(math.LegacyNewDec(3)))
 	obs(math.LegacyNewDec(2).Quo(math.LegacyNewDec(3)))
